@@ -48,6 +48,8 @@ type c16In struct {
 	Ptr    bool    `json:"ptr,omitempty"`     // produce: [][]string, []byte, string passed by pointer
 	PreLen int     `json:"prelen,omitempty"`  // record-table destination before the call
 	PreCap int     `json:"precap,omitempty"`
+	Share  string  `json:"share,omitempty"`   // how the rows of a pre-populated table are stored: "" one-field rows, each its own array | separate | same | grid | gridcap | windows | spare
+	PreW   int     `json:"prew,omitempty"`    // width of those rows (Share != "")
 	Elem   string  `json:"elem,omitempty"`    // record table (dst in consume/pair, src in produce): "" [][]string | named | mystr | row
 	Stress int     `json:"stress,omitempty"`  // produce: repeat the call this many times concurrently; any run that differs is the observable
 	Chunk  int     `json:"chunk,omitempty"`   // reader / WriterTo hands the text over in pieces of this size (0 = at once)
@@ -459,6 +461,70 @@ func c16SameRows(a, b [][]string) bool {
 	return true
 }
 
+// c16Shares: how the rows a caller's table already holds may be stored. separate: every row its own array, no spare
+// capacity; same: one template row repeated; grid: rows carved one after the other out of one flat array, the capacity of
+// each running to the end of it; gridcap: the same with the capacity cut at the row's end; windows: overlapping windows
+// of one array; spare: own arrays with spare capacity.
+var c16Shares = []string{"separate", "same", "grid", "gridcap", "windows", "spare"}
+
+// c16PreTable builds the table a pre-populated record destination holds before the call (PreLen rows, capacity PreCap).
+func c16PreTable(in c16In) [][]string {
+	table := make([][]string, in.PreLen, in.PreCap)
+	w := in.PreW
+	if w < 0 {
+		w = 0
+	}
+	var flat []string
+	switch in.Share {
+	case "same":
+		flat = make([]string, w)
+	case "grid", "gridcap":
+		flat = make([]string, in.PreLen*w)
+	case "windows":
+		flat = make([]string, in.PreLen+w)
+	}
+	for j := range flat {
+		flat[j] = fmt.Sprintf("old.%d", j)
+	}
+	for i := range table {
+		switch in.Share {
+		case "":
+			table[i] = []string{fmt.Sprintf("old%d", i)}
+			continue
+		case "same":
+			table[i] = flat
+			continue
+		case "grid":
+			table[i] = flat[i*w : (i+1)*w]
+			continue
+		case "gridcap":
+			table[i] = flat[i*w : (i+1)*w : (i+1)*w]
+			continue
+		case "windows":
+			table[i] = flat[i : i+w]
+			continue
+		}
+		row := make([]string, w)
+		if in.Share == "spare" {
+			row = make([]string, w, w+1+i%3)
+		}
+		for j := range row {
+			row[j] = fmt.Sprintf("old%d.%d", i, j)
+		}
+		table[i] = row
+	}
+	return table
+}
+
+// c16Deep: the text of the rows, each up to its full capacity (what the caller's storage reads as).
+func c16Deep(t [][]string) string {
+	var sb strings.Builder
+	for _, r := range t {
+		fmt.Fprintf(&sb, "%d:%q;", len(r), r[:cap(r)])
+	}
+	return sb.String()
+}
+
 func c16Consume(in c16In, text string) c16Step {
 	st, _ := c16ConsumeWith(runtime.CSVConsumer(c16GoOpts(in.Opts)...), in, text)
 	return st
@@ -490,6 +556,7 @@ func c16ConsumeWith(cons runtime.Consumer, in c16In, text string) (c16Step, c16R
 	um := &c16Unmarshaler{}
 	var table [][]string
 	var pre [][]string
+	var preDeep string
 	var named c16Table
 	var mystr [][]c16Str
 	var rowt []c16Row
@@ -511,11 +578,12 @@ func c16ConsumeWith(cons runtime.Consumer, in c16In, text string) (c16Step, c16R
 		data = um
 	case "records":
 		if in.PreCap > 0 {
-			table = make([][]string, in.PreLen, in.PreCap)
-			for i := range table {
-				table[i] = []string{fmt.Sprintf("old%d", i)}
-			}
+			table = c16PreTable(in)
 			pre = append([][]string(nil), table...)
+			preDeep = c16Deep(pre)
+			if in.Elem == "named" {
+				named, table = c16Table(table), nil
+			}
 		}
 		data = &table
 		switch {
@@ -557,8 +625,18 @@ func c16ConsumeWith(cons runtime.Consumer, in c16In, text string) (c16Step, c16R
 			c16ErrClass(err, &st)
 			switch in.Dst {
 			case "records":
-				if !in.Nil && in.Elem == "" {
-					st.Untouched = len(table) == in.PreLen && cap(table) == in.PreCap && fmt.Sprint(table) == fmt.Sprint(pre)
+				if !in.Nil && (in.Elem == "" || in.Elem == "named") {
+					now := table
+					if in.Elem == "named" {
+						now = named
+					}
+					// same length, capacity, row slices and - row storage being the caller's - the same text in every slot of it
+					st.Untouched = len(now) == in.PreLen && cap(now) == in.PreCap && fmt.Sprint(now) == fmt.Sprint(pre) && c16Deep(now[:len(now):len(now)]) == preDeep
+					for i := range now {
+						if i < len(pre) && (len(now[i]) != len(pre[i]) || cap(now[i]) != cap(pre[i]) || (cap(now[i]) > 0 && unsafe.SliceData(now[i]) != unsafe.SliceData(pre[i]))) {
+							st.Untouched = false
+						}
+					}
 				}
 			case "bytes":
 				st.Untouched = string(bts) == "old"
@@ -1092,6 +1170,27 @@ func (c16) Category(x any, y any) (string, bool) {
 		default:
 			parts = append(parts, "pre:shorter-or-equal")
 		}
+		if in.Share != "" {
+			// row width against the field counts of the records landing on pre-populated rows
+			rel := ""
+			if len(first.PT) > 0 && in.Mode == "consume" {
+				lt, eq, gt := false, false, false
+				for i, rec := range first.PT[0].Recs {
+					if i >= o.Skip && i-o.Skip < in.PreLen {
+						lt, eq, gt = lt || in.PreW < len(rec), eq || in.PreW == len(rec), gt || in.PreW > len(rec)
+					}
+				}
+				for _, x := range []struct {
+					b bool
+					s string
+				}{{lt, "<"}, {eq, "="}, {gt, ">"}} {
+					if x.b {
+						rel += x.s
+					}
+				}
+			}
+			parts = append(parts, "share:"+in.Share+" w"+rel)
+		}
 	}
 	if perr {
 		parts = append(parts, "malformed")
@@ -1262,6 +1361,23 @@ func c16GenSkip(r *rand.Rand, o c16Opts, text string) int {
 	}
 }
 
+// c16GenPre: a pre-populated record table: (len, cap), how its rows are stored and how wide they are (narrower than, as
+// wide as and wider than the records of the generated texts, which have 1 to 4 fields).
+func c16GenPre(r *rand.Rand, c *c16In) {
+	c.PreCap = 1 + r.Intn(9)
+	c.PreLen = r.Intn(c.PreCap + 1)
+	if r.Intn(4) != 0 {
+		c.Share = c16Shares[r.Intn(len(c16Shares))]
+		c.PreW = r.Intn(6)
+		if c.PreLen < 2 && r.Intn(3) != 0 { // sharing needs two rows
+			c.PreLen = 2 + r.Intn(c.PreCap)
+			if c.PreLen > c.PreCap {
+				c.PreCap = c.PreLen
+			}
+		}
+	}
+}
+
 // c16GenHist: one option set, 2 to 4 calls through the same consumer / producer value. Neighbouring calls differ in the
 // text only, in the destination / source kind only, or in everything.
 func c16GenHist(r *rand.Rand) c16In {
@@ -1305,8 +1421,7 @@ func c16GenHist(r *rand.Rand) c16In {
 				c.Dst = c16Dsts[r.Intn(8)]
 			}
 			if c.Dst == "records" && r.Intn(3) == 0 {
-				c.PreCap = 1 + r.Intn(9)
-				c.PreLen = r.Intn(c.PreCap + 1)
+				c16GenPre(r, &c)
 			}
 		} else {
 			c.Mode = "produce"
@@ -1377,8 +1492,10 @@ func (c16) Gen(r *rand.Rand, tier string, i int) any {
 		in.Dst = c16Dsts[r.Intn(8)]
 	}
 	if in.Dst == "records" && r.Intn(2) == 0 {
-		in.PreCap = 1 + r.Intn(9)
-		in.PreLen = r.Intn(in.PreCap + 1)
+		c16GenPre(r, &in)
+		if in.Share != "" && r.Intn(4) == 0 {
+			in.Elem = "named"
+		}
 	}
 	if ((in.Mode != "produce" && in.Dst == "records") || (in.Mode == "produce" && in.Src == "records")) && in.PreCap == 0 && !in.Ptr && r.Intn(5) == 0 {
 		in.Elem = []string{"named", "mystr", "row"}[r.Intn(3)]
@@ -1413,6 +1530,24 @@ func (c16) Enumerate(tier string) []any {
 		for ln := 0; ln <= cp; ln++ {
 			for sk := 0; sk <= 5; sk++ {
 				out = append(out, c16In{Mode: "consume", Text: Bs(text), Opts: c16Opts{Skip: sk, Reuse: sk%2 == 1}, Dst: "records", PreLen: ln, PreCap: cp})
+			}
+		}
+	}
+	// how the rows of a pre-populated table are stored x how wide they are (0..4; the records have 1, 2 and 3 fields) x
+	// more / as many / fewer rows than records, [][]string and the named table type, with and without a skipped line
+	for si, sh := range c16Shares {
+		for w := 0; w <= 4; w++ {
+			for li, ln := range []int{2, 3, 5} {
+				in := c16In{Mode: "consume", Text: Bs("a,b\nc,d\ne,f\n"), Dst: "records", PreLen: ln, PreCap: ln + (w+li)%2, Share: sh, PreW: w}
+				switch (si + w + li) % 4 {
+				case 1:
+					in.Text, in.Opts = Bs("a,b,c\nd,e,f\ng,h\n"), c16Opts{FPR: -1}
+				case 2:
+					in.Text, in.Opts = Bs("h\na,b,c\nd\ne,f\n"), c16Opts{FPR: -1, Skip: 1, Reuse: w%2 == 0}
+				case 3:
+					in.Elem = "named"
+				}
+				out = append(out, in)
 			}
 		}
 	}
